@@ -447,3 +447,38 @@ Definition srv_run (s : server) (frags : list bytes) : server * list sout :=
 Definition fresh_server : server := mkS [] true.
 
 End Model.
+
+(* ---------------------------------------------------------------- server timers (close_on_idle / transfer timeout)
+   One connection.  TmIdle d: the watchdog waits for started_transfer until d.  TmTransfer d: a blob is being
+   sent (started_transfer was set before the sendfile await; the watchdog waits for transfer_finished, the
+   transfer itself is bounded by wait_for(sendfile, transfer_timeout) until d). *)
+Inductive tmode := TmIdle (deadline : Z) | TmTransfer (deadline : Z) | TmClosed.
+Record tsrv := mkT { t_now : Z; t_mode : tmode }.
+Inductive tev :=
+| TvStart            (* handle_request starts sending a held blob *)
+| TvDone             (* sendfile returns: transfer_finished.set() *)
+| TvAdvance (dt : Z)
+| TvOther.           (* any request that starts no transfer: the idle deadline is NOT moved *)
+
+Definition tsrv_fresh (idleT now : Z) : tsrv := mkT now (TmIdle (now + idleT)).
+Definition tsrv_open (s : tsrv) : bool := match t_mode s with TmClosed => false | _ => true end.
+
+Definition tsrv_step (idleT transT : Z) (s : tsrv) (e : tev) : tsrv :=
+  match e, t_mode s with
+  | TvStart, TmIdle _ => mkT (t_now s) (TmTransfer (t_now s + transT))
+  | TvDone, TmTransfer _ => mkT (t_now s) (TmIdle (t_now s + idleT))
+  | TvAdvance dt, TmIdle d =>
+      let now := t_now s + Z.max dt 0 in mkT now (if d <=? now then TmClosed else TmIdle d)
+  | TvAdvance dt, TmTransfer d =>
+      let now := t_now s + Z.max dt 0 in mkT now (if d <=? now then TmClosed else TmTransfer d)
+  | TvAdvance dt, TmClosed => mkT (t_now s + Z.max dt 0) TmClosed
+  | _, _ => s
+  end.
+
+Definition tsrv_run (idleT transT : Z) (s : tsrv) (evs : list tev) : tsrv := fold_left (tsrv_step idleT transT) evs s.
+
+Fixpoint tsrv_trace (idleT transT : Z) (s : tsrv) (evs : list tev) : list bool :=
+  match evs with
+  | [] => []
+  | e :: r => let s' := tsrv_step idleT transT s e in tsrv_open s' :: tsrv_trace idleT transT s' r
+  end.
